@@ -5,6 +5,19 @@
 #include <sys/mman.h>
 #include <librfn/pack.h>
 
+/* operations the header declares but pack.c does not (yet) define: used only if the library provides them */
+#pragma weak rf_pack_char
+#pragma weak rf_pack_s8
+#pragma weak rf_pack_u8
+#pragma weak rf_pack_s16be
+#pragma weak rf_pack_s32be
+#pragma weak rf_pack_u32be
+#pragma weak rf_unpack_s16be
+#pragma weak rf_unpack_s16le
+#pragma weak rf_unpack_u16be
+#pragma weak rf_unpack_s32be
+#pragma weak rf_unpack_s32le
+#pragma weak rf_unpack_u32be
 static uint8_t *area, *buf;
 static int size, asize;      /* asize: the allocated size (guards sit behind it); size shrinks when the packer is re-initialised over what it consumed */
 static rf_pack_t pk;
@@ -153,6 +166,48 @@ static void do_flip(void)
 	printf("{\"e\":\"Flip\",\"a\":[],\"r\":[]");
 	tail();
 }
+/* late additions to the library: each declared operation that exists is run at every amount of room; the event carries the
+ * bytes in wire order (pack) or the value most significant byte first with the order its name states (unpack) */
+static void wire_pack(const char *op, int n, int be, uint32_t v)
+{
+	uint8_t w[4];
+	for (int i = 0; i < n; i++) w[i] = (uint8_t)(v >> (8 * (be ? n - 1 - i : i)));
+	printf("{\"e\":\"PackWire\",\"op\":\"%s\",\"a\":[", op);
+	bytes_json(w, n);
+	printf("],\"r\":[]");
+	tail();
+}
+static void wire_unpack(const char *op, int n, int be, uint32_t v)
+{
+	uint8_t r[4];
+	for (int i = 0; i < n; i++) r[i] = (uint8_t)(v >> (8 * (n - 1 - i)));
+	printf("{\"e\":\"UnpackWire\",\"op\":\"%s\",\"a\":[%d,\"%s\"],\"r\":", op, n, be ? "be" : "le");
+	bytes_json(r, n);
+	tail();
+}
+static void weak_ops(void)
+{
+	static const uint32_t vals[] = { 0xa1b2c3d4u, 0x00000080u, 0xffffffffu, 0x01020304u };
+	for (int room = 0; room <= 6; room++)
+		for (unsigned vi = 0; vi < 4; vi++) {
+			uint32_t v = vals[vi];
+			if (rf_pack_char) { reset(room); do_packbytes(room > 2 ? room - 2 : 0, 1); rf_pack_char(&pk, (char)v); wire_pack("rf_pack_char", 1, 1, v & 0xff); }
+			if (rf_pack_s8) { reset(room); rf_pack_s8(&pk, (int8_t)v); wire_pack("rf_pack_s8", 1, 1, v & 0xff); }
+			if (rf_pack_u8) { reset(room); rf_pack_u8(&pk, (int16_t)(v & 0xff)); wire_pack("rf_pack_u8", 1, 1, v & 0xff); }
+			if (rf_pack_s16be) { reset(room); do_packbytes(room / 2, 0); rf_pack_s16be(&pk, (int16_t)v); wire_pack("rf_pack_s16be", 2, 1, v & 0xffff); }
+			if (rf_pack_s32be) { reset(room); do_packbytes(room / 3, 1); rf_pack_s32be(&pk, (int32_t)v); wire_pack("rf_pack_s32be", 4, 1, v); }
+			if (rf_pack_u32be) { reset(room); do_packbytes(room > 3 ? room - 3 : 0, 1); rf_pack_u32be(&pk, v); wire_pack("rf_pack_u32be", 4, 1, v); }
+			if (rf_pack_u32be) { reset(room); rf_pack_u32be(&pk, v); wire_pack("rf_pack_u32be", 4, 1, v); }
+			/* unpackers read the buffer's pattern */
+			if (rf_unpack_s16be) { reset(room); do_unpackbytes(room / 2, 0); wire_unpack("rf_unpack_s16be", 2, 1, (uint16_t)rf_unpack_s16be(&pk)); }
+			if (rf_unpack_s16le) { reset(room); wire_unpack("rf_unpack_s16le", 2, 0, (uint16_t)rf_unpack_s16le(&pk)); }
+			if (rf_unpack_u16be) { reset(room); do_unpackbytes(room > 1 ? room - 1 : 0, 1); wire_unpack("rf_unpack_u16be", 2, 1, rf_unpack_u16be(&pk)); }
+			if (rf_unpack_s32be) { reset(room); do_unpackbytes(room / 3, 1); wire_unpack("rf_unpack_s32be", 4, 1, (uint32_t)rf_unpack_s32be(&pk)); }
+			if (rf_unpack_s32le) { reset(room); wire_unpack("rf_unpack_s32le", 4, 0, (uint32_t)rf_unpack_s32le(&pk)); }
+			if (rf_unpack_u32be) { reset(room); do_unpackbytes(room > 3 ? room - 3 : 0, 0); wire_unpack("rf_unpack_u32be", 4, 1, rf_unpack_u32be(&pk)); }
+			if (rf_unpack_u32be) { reset(room); wire_unpack("rf_unpack_u32be", 4, 1, rf_unpack_u32be(&pk)); }
+		}
+}
 static const char *ops16[] = { "PackS16le", "PackU16le", "PackU16be" };
 static const char *ops32[] = { "PackS32le", "PackU32le" };
 static void sweep16(int stride)
@@ -258,6 +313,7 @@ static void randomseq(int nexec, int nops)
 	huge();
 	huger();
 	bigbuf();
+	weak_ops();
 	static const char *un[] = { "UnpackChar", "UnpackS8", "UnpackU8", "UnpackU16le", "UnpackU32le" };
 	for (int x = 0; x < nexec; x++) {
 		reset(drv_below(4) ? drv_below(24) : drv_below(65));
